@@ -150,7 +150,9 @@ def run_e2(job):
             ledger, snaps = ledger + led2, snaps + sn2
         base = final.view.outcome()
         if base["wf"] != "SUCCEEDED":
-            raise RuntimeError(f"harness: gate baseline ({moment}) did not succeed: {base}")
+            viols.append({"kind": "signal-lost-in-uninterrupted-run", "moment": moment, "outcome": base,
+                          "where": {"handling": "baseline", "moment": moment}, "sig": f"signal-lost-baseline:{moment}"})
+            continue
         points += len(snaps)
         for i, s in enumerate(snaps):
             for order in ("restart-first", "expire-first"):
